@@ -247,6 +247,16 @@ func genChainWalk(r *rand.Rand, n int) []Step {
 	outage := 0
 	nextLev, nextPerp := 1, 1
 	sizes := []string{"one", "dust", "s1", "s2", "s3"}
+	if genIndex%4 == 2 {
+		// scripted corner: no community tax, staking rewards split between the validator and the Eden / EdenB representatives
+		// whose stakes change by a few units from block to block (every split rounds differently) while fees keep arriving
+		st = append(st, Step{"a": "govDistrTax", "value": "0"}, Step{"a": "commitClaimed", "u": "u1", "d": "ueden", "frac": pick(r, "third", "half")},
+			Step{"a": "commitClaimed", "u": "u2", "d": "uedenb", "frac": pick(r, "third", "half", "most")}, Step{"a": "feedAll"}, Step{"a": "block", "dt": float64(5)})
+		for k := 0; k < 12 && k < n/8; k++ {
+			st = append(st, Step{"a": "commitClaimed", "u": pick(r, users...), "d": pick(r, "ueden", "uedenb"), "frac": pick(r, "one", "tiny", "third")},
+				Step{"a": "fee", "d": "uusdc", "amt": float64(pick(r, 7, 2000, 5000000))}, Step{"a": "feedAll"}, Step{"a": "block", "dt": float64(5)})
+		}
+	}
 	for i := 0; i < n; i++ {
 		u := pick(r, users...)
 		switch r.Intn(30) {
@@ -296,6 +306,14 @@ func genChainWalk(r *rand.Rand, n int) []Step {
 			st = append(st, Step{"a": "spotOrder", "u": u, "type": pick(r, "LIMITSELL", "STOPLOSS"), "base": "uatom", "quote": "uusdc", "d": "uatom", "target": "uusdc", "sz": "s1", "mul": pick(r, "0.9", "1.1")})
 		case 22:
 			st = append(st, Step{"a": "execOrders", "u": "bot", "spot": []any{float64(1 + r.Intn(3))}, "perp": []any{}})
+		case 25:
+			st = append(st, Step{"a": pick(r, "commitClaimed", "commitClaimed", "uncommit"), "u": u, "d": pick(r, "ueden", "uedenb"), "frac": pick(r, "third", "half", "most", "all", "one")})
+		case 26:
+			if r.Intn(3) == 0 {
+				st = append(st, Step{"a": "govDistrTax", "value": pick(r, "0", "0", "0.02", "0.5", "1")})
+			} else {
+				st = append(st, Step{"a": "commitClaimed", "u": u, "d": pick(r, "ueden", "uedenb"), "frac": pick(r, "third", "half", "most")})
+			}
 		case 23:
 			st = append(st, Step{"a": "incentive", "u": u, "p": float64(1 + r.Intn(2)), "d": pick(r, "uusdc", "uatom"), "perBlock": pick(r, "1", "1000"), "from": float64(r.Intn(3)), "len": float64(1 + r.Intn(20))})
 		default:
